@@ -43,9 +43,9 @@ CFG = {
         "C17_metadata_md_json_md_detailed", "C17_metadata_md_json_md_noconv", "C17_metadata_md_json_md_noconv_refuted",
         "C17_metadata_json_md_json", "C17_out_of_schema_is_error", "C17_in_schema_converts",
         "C17_plutus_detailed_roundtrip", "C17_plutus_detailed_roundtrip_refuted", "C17_plutus_out_of_schema_is_error",
-        "C17_plutus_in_schema_converts", "C17_chunks", "C17_chunks_valid_metadata", "C17_unchunk_rejects",
+        "C17_plutus_in_schema_converts", "C17_plutus_basic_out_of_schema_is_error", "C17_plutus_basic_in_schema_converts", "C17_chunks", "C17_chunks_valid_metadata", "C17_unchunk_rejects",
         "C17_serde_forms_roundtrip", "C17_serde_forms_canonical", "C17_serde_forms_total", "C17_old_behaviour_refuted",
-        "C17_serde_read_write", "C17_serde_typed_roundtrip", "C17_serde_table_roundtrip", "C17_serde_annotations_wf",
+        "C17_serde_read_write", "C17_serde_typed_roundtrip", "C17_serde_table_roundtrip", "C17_serde_annotations_wf", "C17_serde_address_leg", "C17_serde_vkey_leg",
     ],
     "allowed_axioms": [],
     "level_text": "Coq proofs (closed under the global context) about an executable model of metadata.rs / plutus_data.rs JSON conversions: "
